@@ -164,3 +164,38 @@ End Sinks.
 (* ---------------------------------------------------------------- Aggregate<T> (no key, embedded) *)
 Definition agg_insert (a : accum) (e : entry) : accum := merge_entry a e.
 Definition agg_run (sh : shape) (es : list entry) : accum := fold_left agg_insert es (new_merged sh).
+
+(* ---------------------------------------------------------------- the table's stored hashes *)
+(* A closer look at hashbrown's raw-entry use in get_or_create_accum: the lookup hashes the BORROWED key
+   (hb) and only visits slots whose stored hash agrees; a vacant insert stores that same hash
+   (insert_hashed_nocheck); when the table grows, every stored hash is recomputed from the OWNED key (ho).
+   Resizes are modelled as an operation that may happen at any time. *)
+Definition hslot := (N * key * accum)%type.
+Inductive hop := HMerge (e : entry) | HRehash | HFlushOp.
+
+Section StoredHashes.
+  Variable hb ho : key -> N.
+  Variable sh : shape.
+
+  Fixpoint hmerge_into (st : list hslot) (k : key) (e : entry) : list hslot :=
+    match st with
+    | [] => [(hb k, k, merge_entry (new_merged sh) e)]
+    | (hs, k', a) :: r =>
+        if (hs =? hb k) && key_eqb k' k then (hs, k', merge_entry a e) :: r
+        else (hs, k', a) :: hmerge_into r k e
+    end.
+  Definition rehash (st : list hslot) : list hslot := map (fun s => (ho (snd (fst s)), snd (fst s), snd s)) st.
+  Definition erase (st : list hslot) : list slot := map (fun s => (snd (fst s), snd s)) st.
+
+  (* a keyed aggregator over such a table: (storage, batches emitted) *)
+  Definition hstep (kf : entry -> key) (s : list hslot * list (list emitted)) (o : hop) :=
+    match o with
+    | HMerge e => (hmerge_into (fst s) (kf e) e, snd s)
+    | HRehash => (rehash (fst s), snd s)
+    | HFlushOp => ([], snd s ++ [drain (erase (fst s))])
+    end.
+  Definition hrun (kf : entry -> key) (ops : list hop) := fold_left (hstep kf) ops ([], []).
+End StoredHashes.
+
+Definition hop_op (o : hop) : list op :=
+  match o with HMerge e => [OMerge e] | HRehash => [] | HFlushOp => [OFlush] end.
